@@ -54,7 +54,8 @@ NZ = ("C", 0)       # right-hand side of the `term != 0` facts kept in State.rel
 # function path -> MIR projection list p such that the function returns `(*arg0).p` (a plain field getter)
 GETTERS = {}
 # function path -> (success variant, [(payload path, op, other)]) : facts about the Ok/Some payload that hold at every return
-# of the function; other = ('Lp', param, path) (a length behind a pointer parameter) | ('ret', payload path) | ('rng', lo, hi)
+# of the function; other = ('Lp', param, path) (a length behind a pointer parameter) | ('Ip', param) (an integer parameter the
+# function never assigns) | ('ret', payload path) | ('rng', lo, hi)
 RET_FACTS = {}
 # promoted constant path -> (start, end, inclusive, type) for `&(a..b)` / `&(a..=b)` with literal bounds
 PROMOTED_RANGES = {}
@@ -1816,6 +1817,11 @@ class Intervals:
                     t2 = ("P", l, other[1])
                     self.term_tr.setdefault(t2, (0, (1 << 64) - 1))
                     self.add_rel(st, t, o, t2)
+                elif other[0] == "Ip":
+                    # relation with an integer parameter of the callee: the argument passed for it at this call
+                    pi = other[1]
+                    if pi - 1 < len(arg_terms) and arg_terms[pi - 1] is not None:
+                        self.add_rel(st, t, o, arg_terms[pi - 1])
                 elif other[0] == "Lp":
                     pi = other[1]
                     if pi - 1 < len(args_ops):
